@@ -37,6 +37,7 @@ use tokio::task::JoinHandle;
 
 #[derive(Clone, Debug)]
 pub struct Rec {
+    pub ver: (u8, u8),
     pub ctype: u8,
     pub epoch: u16,
     pub rseq: u64,
@@ -64,6 +65,7 @@ pub fn parse_records(d: &[u8]) -> Vec<Rec> {
         let mut s = [0u8; 8];
         s[2..8].copy_from_slice(&d[i + 5..i + 11]);
         out.push(Rec {
+            ver: (d[i + 1], d[i + 2]),
             ctype: d[i],
             epoch: u16::from_be_bytes([d[i + 3], d[i + 4]]),
             rseq: u64::from_be_bytes(s),
@@ -72,6 +74,14 @@ pub fn parse_records(d: &[u8]) -> Vec<Rec> {
         i += 13 + len;
     }
     out
+}
+
+/// Re-encode a parsed record with its original version bytes.
+pub fn encode_record_raw(r: &Rec) -> Vec<u8> {
+    let mut b = encode_record(r);
+    b[1] = r.ver.0;
+    b[2] = r.ver.1;
+    b
 }
 
 pub fn encode_record(r: &Rec) -> Vec<u8> {
@@ -288,6 +298,7 @@ pub struct ProxyState {
     counts: HashMap<(String, String), u32>,
     held: HashMap<String, Vec<(u32, Vec<u8>, String)>>, // dir -> (remaining, datagram, label)
     next_frag_rseq: u64,
+    rseq_shift: HashMap<String, u64>,
     pub adversary: Option<Adversary>,
     /// randoms as last delivered towards the server (ClientHello) / the client (ServerHello)
     cr_seen: Vec<u8>,
@@ -295,6 +306,9 @@ pub struct ProxyState {
     /// message_seq shift applied to plaintext handshake messages per direction (after an `omit`).
     seq_shift: HashMap<String, i32>,
     pub forwarded: u64,
+    /// forward a datagram that packs several records as one datagram per record (same order), so that
+    /// every record is individually addressable (peers that pack a whole flight into one datagram)
+    pub unpack: bool,
     /// every original (pre-fault) plaintext handshake message seen: (dir, type, mseq) -> body hash
     pub originals: Vec<Value>,
 }
@@ -306,11 +320,13 @@ impl ProxyState {
             counts: HashMap::new(),
             held: HashMap::new(),
             next_frag_rseq: 0x4000_0000,
+            rseq_shift: HashMap::new(),
             adversary: None,
             cr_seen: Vec::new(),
             sr_seen: Vec::new(),
             seq_shift: HashMap::new(),
             forwarded: 0,
+            unpack: false,
             originals: Vec::new(),
         }
     }
@@ -359,13 +375,8 @@ impl ProxyState {
         let mut frags = Vec::new();
         for (i, w) in edges.windows(2).enumerate() {
             let fh = Hs { typ: h.typ, total: h.total, mseq: h.mseq, off: w[0] as u32, flen: (w[1] - w[0]) as u32, body: h.body[w[0]..w[1]].to_vec() };
-            let rseq = if i == 0 {
-                recs[0].rseq
-            } else {
-                self.next_frag_rseq += 1;
-                self.next_frag_rseq
-            };
-            frags.push(encode_record(&Rec { ctype: 22, epoch: 0, rseq, body: encode_hs(&fh) }));
+            let rseq = recs[0].rseq + i as u64;
+            frags.push(encode_record(&Rec { ver: (254, 253), ctype: 22, epoch: 0, rseq, body: encode_hs(&fh) }));
         }
         if same_dgram {
             Some(vec![(frags.concat(), 0)])
@@ -381,7 +392,7 @@ impl ProxyState {
         let recs = parse_records(d);
         if what == "inj_app0" {
             self.next_frag_rseq += 1;
-            let r = Rec { ctype: 23, epoch: 0, rseq: self.next_frag_rseq, body: b"injected-plaintext-appdata".to_vec() };
+            let r = Rec { ver: (254, 253), ctype: 23, epoch: 0, rseq: self.next_frag_rseq, body: b"injected-plaintext-appdata".to_vec() };
             return vec![encode_record(&r), d.to_vec()];
         }
         if what == "inj_fin0" {
@@ -390,7 +401,7 @@ impl ProxyState {
             let Some(ms) = ms else { return vec![d.to_vec()] };
             self.next_frag_rseq += 1;
             let h = Hs { typ: 20, total: 12, mseq: ms, off: 0, flen: 12, body: vec![0xA5; 12] };
-            let r = Rec { ctype: 22, epoch: 0, rseq: self.next_frag_rseq, body: encode_hs(&h) };
+            let r = Rec { ver: (254, 253), ctype: 22, epoch: 0, rseq: self.next_frag_rseq, body: encode_hs(&h) };
             return vec![encode_record(&r), d.to_vec()];
         }
         if recs.len() != 1 || recs[0].ctype != 22 || recs[0].epoch != 0 {
@@ -447,7 +458,7 @@ impl ProxyState {
         }
         h.total = h.body.len() as u32;
         h.flen = h.total;
-        let r = Rec { ctype: 22, epoch: 0, rseq: recs[0].rseq, body: encode_hs(&h) };
+        let r = Rec { ver: (254, 253), ctype: 22, epoch: 0, rseq: recs[0].rseq, body: encode_hs(&h) };
         vec![encode_record(&r)]
     }
 
@@ -489,6 +500,41 @@ impl ProxyState {
 
     /// Process one datagram travelling in `dir`; returns the datagrams to put on the wire now, in order.
     pub fn process(&mut self, dir: &str, d: &[u8]) -> Vec<Vec<u8>> {
+        if self.unpack {
+            let recs = parse_records(d);
+            if recs.len() > 1 {
+                let mut out = Vec::new();
+                for r in recs {
+                    out.extend(self.process_one(dir, &encode_record_raw(&r)));
+                }
+                return out;
+            }
+        }
+        self.process_one(dir, d)
+    }
+
+    /// Record sequence numbers of epoch-0 records are renumbered after a split so that the fragments sit
+    /// where the original record was and everything behind them moves up - what a sender that fragments
+    /// would produce (record headers of epoch 0 are not authenticated). Peers with an anti-replay window
+    /// would otherwise see fragment records far in the future and then discard the genuine ones as old.
+    fn apply_rseq_shift(&self, dir: &str, d: &[u8]) -> Vec<u8> {
+        let shift = *self.rseq_shift.get(dir).unwrap_or(&0);
+        if shift == 0 {
+            return d.to_vec();
+        }
+        let mut out = Vec::new();
+        for mut r in parse_records(d) {
+            if r.epoch == 0 {
+                r.rseq += shift;
+            }
+            out.extend(encode_record_raw(&r));
+        }
+        if out.is_empty() { d.to_vec() } else { out }
+    }
+
+    fn process_one(&mut self, dir: &str, d0: &[u8]) -> Vec<Vec<u8>> {
+        let shifted = self.apply_rseq_shift(dir, d0);
+        let d: &[u8] = &shifted;
         let base = dgram_label(d);
         // remember the original plaintext handshake messages (content oracle for reassembly checks)
         for r in parse_records(d) {
@@ -512,6 +558,7 @@ impl ProxyState {
             let same = op.arg["same_dgram"].as_bool().unwrap_or(false);
             match self.split(d, n, cuts, same) {
                 Some(parts) => {
+                    *self.rseq_shift.entry(dir.to_string()).or_insert(0) += parts.len().saturating_sub(1) as u64;
                     net_event("split", json!({"dir": dir, "msg": base, "ord": ord, "n": parts.len(), "same_dgram": same}));
                     for (bytes, idx) in parts {
                         if idx == 0 {
